@@ -3,18 +3,21 @@ TLC-generated refinement histories and project them onto plain data."""
 import numpy as np
 
 
-def make_kvs(cfg):
+def make_kvs(cfg, integer_grid=False):
+    """coarse knot vectors on [0,1], or (integer_grid) on [0, N*2^(MaxLev-1)] so that every breakpoint of every
+    model level is an integer, exactly the domain of the exact references in HRepr/HAssemble"""
     from pyiga import bspline
     D = cfg['D']
     P = [cfg['P1'], cfg['P2']][:D]
     N = [cfg['N1'], cfg['N2']][:D]
-    return tuple(bspline.make_knots(P[a], 0.0, 1.0, N[a]) for a in range(D))
+    S = [float(N[a] * 2 ** (cfg['MaxLev'] - 1)) if integer_grid else 1.0 for a in range(D)]
+    return tuple(bspline.make_knots(P[a], 0.0, S[a], N[a]) for a in range(D))
 
 
-def make_space(cfg, truncate=False, bdspecs=None):
+def make_space(cfg, truncate=False, bdspecs=None, integer_grid=False):
     from pyiga import hierarchical
     disp = cfg['Disp'] if cfg['Disp'] > 0 else np.inf
-    return hierarchical.HSpace(make_kvs(cfg), truncate=truncate, disparity=disp, bdspecs=bdspecs)
+    return hierarchical.HSpace(make_kvs(cfg, integer_grid), truncate=truncate, disparity=disp, bdspecs=bdspecs)
 
 
 def project(hs):
@@ -44,9 +47,9 @@ def marks_lists(marked, nlev):
     return out
 
 
-def replay_history(cfg, hist, containers=('set',), truncate=False, bdspecs=None, truncflag=False):
+def replay_history(cfg, hist, containers=('set',), truncate=False, bdspecs=None, truncflag=False, integer_grid=False):
     """Returns (hs, events, error).  events: list of dict(pre, post, marks_in, marks_out)."""
-    hs = make_space(cfg, truncate=truncate, bdspecs=bdspecs)
+    hs = make_space(cfg, truncate=truncate, bdspecs=bdspecs, integer_grid=integer_grid)
     events = []
     for n, call in enumerate(hist):
         how = containers[n % len(containers)]
